@@ -1,7 +1,14 @@
 """Dev tool: (re)generates mutants/<ID>/<name>.patch from the table in vf/mutants_table.py against
 the current /repo tree.  python -m vf.mkmut [ID ...]"""
 import difflib, os, sys
-from vf.mutants_table import MUTANTS
+from vf.mutants_table import MUTANTS as _BASE
+import glob, importlib
+MUTANTS = dict(_BASE)
+for _f in sorted(glob.glob(os.path.join(os.path.dirname(os.path.abspath(__file__)), 'mutants_c*.py'))):
+  _m = importlib.import_module('vf.' + os.path.basename(_f)[:-3])
+  for _k, _v in _m.MUTANTS.items():
+    MUTANTS.setdefault(_k, [])
+    MUTANTS[_k] = list(MUTANTS[_k]) + list(_v)
 ROOT = os.path.dirname(os.path.dirname(os.path.abspath(__file__)))
 
 def main(ids):
